@@ -45,6 +45,8 @@ func Conc(v string) any {
 		return nil
 	case "S":
 		return stackage.And().Push("in")
+	case "Z":
+		return stackage.And()
 	case "A":
 		return AStack(stackage.And().Push("in"))
 	case "P":
@@ -64,6 +66,9 @@ func Proj(x any) string {
 	case string:
 		return tv
 	case stackage.Stack:
+		if tv.Len() == 0 || tv.Kind() == "BASIC" {
+			return "Z"
+		}
 		return "S"
 	case AStack, WStack, XStack:
 		return "A"
@@ -100,6 +105,59 @@ type AState struct {
 	Delim  string     `json:"delim"`
 	Sym    string     `json:"sym"`
 	Enc    [][]string `json:"enc"`
+	VPol   string     `json:"vpol"`
+	PPol   bool       `json:"ppol"`
+	EPol   bool       `json:"epol"`
+	UPol   bool       `json:"upol"`
+	MPol   bool       `json:"mpol"`
+}
+
+var errClosure = errors.New("closure verdict")
+
+func setStackVPol(s stackage.Stack, mode string) {
+	switch mode {
+	case "ok":
+		s.SetValidityPolicy(func(...any) error { return nil })
+	case "bad":
+		s.SetValidityPolicy(func(...any) error { return errClosure })
+	default:
+		s.SetValidityPolicy(nil)
+	}
+}
+
+func setStackClosure(s stackage.Stack, op string, on bool, alt bool) {
+	switch op {
+	case "SetPresentationPolicy":
+		if on {
+			s.SetPresentationPolicy(func(...any) string { return "<<closure>>" })
+		} else {
+			s.SetPresentationPolicy(nil)
+		}
+	case "SetEqualityPolicy":
+		if on {
+			s.SetEqualityPolicy(func(any, any) error { return errClosure })
+		} else if alt {
+			s.SetEqualityPolicy()
+		} else {
+			s.SetEqualityPolicy(nil)
+		}
+	case "SetUnmarshaler":
+		if on {
+			s.SetUnmarshaler(func(...any) ([]any, error) { return []any{"<<closure>>"}, nil })
+		} else if alt {
+			s.SetUnmarshaler()
+		} else {
+			s.SetUnmarshaler(nil)
+		}
+	case "SetMarshaler":
+		if on {
+			s.SetMarshaler(func(...any) error { return errClosure })
+		} else if alt {
+			s.SetMarshaler()
+		} else {
+			s.SetMarshaler(nil)
+		}
+	}
 }
 
 func (a AState) Canon() AState {
@@ -113,6 +171,9 @@ func (a AState) Canon() AState {
 	}
 	if b.Enc == nil {
 		b.Enc = [][]string{}
+	}
+	if b.VPol == "" {
+		b.VPol = "none"
 	}
 	return b
 }
@@ -153,6 +214,7 @@ func (a AState) ApplyDelta(d json.RawMessage) (AState, error) {
 // ---- the real object --------------------------------------------------
 
 type Obj struct {
+	alt bool // alternate between the "no argument" and "nil" ways of removing a closure
 	S   stackage.Stack
 	acc map[string]bool
 	log []string // consult log of the current call
@@ -272,6 +334,21 @@ func Build(a AState) *Obj {
 	}
 	if a.HasPol {
 		o.installPolicy(a.Acc)
+	}
+	if a.VPol != "" && a.VPol != "none" {
+		setStackVPol(o.S, a.VPol)
+	}
+	if a.PPol {
+		setStackClosure(o.S, "SetPresentationPolicy", true, false)
+	}
+	if a.EPol {
+		setStackClosure(o.S, "SetEqualityPolicy", true, false)
+	}
+	if a.UPol {
+		setStackClosure(o.S, "SetUnmarshaler", true, false)
+	}
+	if a.MPol {
+		setStackClosure(o.S, "SetMarshaler", true, false)
 	}
 	if a.Err == "set" {
 		o.S.SetErr(errUser)
@@ -432,11 +509,18 @@ func applyInner(o, d *Obj, c Call) (ret []string) {
 		} else {
 			err = o.S.Marshal(in)
 		}
-		if err != nil {
+		if errors.Is(err, errClosure) {
+			ret = []string{"closure"}
+		} else if err != nil {
 			ret = []string{"err"}
 		} else {
 			ret = []string{"nil"}
 		}
+	case "SetValidityPolicy":
+		setStackVPol(o.S, c.Str("mode"))
+	case "SetPresentationPolicy", "SetEqualityPolicy", "SetUnmarshaler", "SetMarshaler":
+		o.alt = !o.alt
+		setStackClosure(o.S, c.Op(), c.Bool("on"), o.alt)
 	case "SetID":
 		o.S.SetID(c.Str("v"))
 	case "SetCategory":
@@ -546,6 +630,10 @@ type Obs struct {
 	Elems   []string   `json:"elems"`
 	Integ   string     `json:"integ"`
 	Locked  string     `json:"locked"`
+	Valid   string     `json:"valid"`
+	StrSrc  string     `json:"strsrc"`
+	EqSrc   string     `json:"eqsrc"`
+	UmSrc   string     `json:"umsrc"`
 }
 
 func safeS(f func() string) (s string) {
@@ -614,6 +702,37 @@ func Observe(s stackage.Stack) Obs {
 	o.Cat = safeS(s.Category)
 	o.Delim = safeS(s.Delimiter)
 	o.IsEnc = safeS(func() string { return b2s(s.IsEncap()) })
+	o.Valid = safeS(func() string {
+		if s.Valid() != nil {
+			return "err"
+		}
+		return "ok"
+	})
+	o.StrSrc = safeS(func() string {
+		switch s.String() {
+		case "":
+			return "empty"
+		case "<<closure>>":
+			return "closure"
+		}
+		return "builtin"
+	})
+	o.EqSrc, o.UmSrc = "none", "none"
+	if live {
+		o.EqSrc = safeS(func() string {
+			if errors.Is(s.IsEqual(s), errClosure) {
+				return "closure"
+			}
+			return "builtin"
+		})
+		o.UmSrc = safeS(func() string {
+			u, _ := s.Unmarshal()
+			if len(u) == 1 && u[0] == "<<closure>>" {
+				return "closure"
+			}
+			return "builtin"
+		})
+	}
 	o.Bits = []string{}
 	o.Enc = [][]string{}
 	o.Elems = []string{}
